@@ -11,7 +11,7 @@ from simkit.kernel import EventLog, Rng, Violation, detach_exc, dim_sig, exc_cla
 from flodym import Dimension, DimensionSet, FlodymArray
 
 NAMES = {"a": "Alpha", "b": "Beta", "c": "Gamma", "d": "Delta", "e": "Epsilon", "t": "Time"}
-BINOPS = ["or", "and", "sub", "xor", "add", "union_with", "intersect_with", "difference_with"]
+BINOPS = ["or", "and", "sub", "xor", "add", "union_with", "intersect_with", "difference_with", "ior", "iand", "isub", "ixor", "iadd"]
 MUTS = ["append", "prepend", "insert", "expand_by", "extend", "replace", "drop", "remove"]
 
 
@@ -491,10 +491,30 @@ class DimSim(Engine):
                 "xor": (lambda: L ^ R, diff + rdiff, "symdiff"),
                 "add": (lambda: L + R, "RAISE" if inter else union, "plus-overlap"),
             }
+            def aug(sym):
+                # the augmented form on another name of the left set: `alias |= R` rebinds the alias; the set itself is no receiver of
+                # an in-place operation and must stay what it was
+                def th_():
+                    alias = L
+                    if sym == "|":
+                        alias |= R
+                    elif sym == "&":
+                        alias &= R
+                    elif sym == "-":
+                        alias -= R
+                    elif sym == "^":
+                        alias ^= R
+                    else:
+                        alias += R
+                    return alias
+                return th_
+            table.update({"ior": (aug("|"), union, "union-order"), "iand": (aug("&"), inter, "intersection-order"),
+                          "isub": (aug("-"), diff, "difference-order"), "ixor": (aug("^"), diff + rdiff, "symdiff"),
+                          "iadd": (aug("+"), "RAISE" if inter else union, "plus-overlap")})
             th, exp, clause = table[f]
             # same letter, different dimension in the two operands: a union consists of the left set plus the right set's *new*
             # dimensions, so the left one stays; for the intersection the property does not say whose object is kept
-            loose = () if f in ("or", "union_with", "add", "xor") else \
+            loose = () if f in ("or", "union_with", "add", "xor", "ior", "iadd", "ixor") else \
                 tuple(st.LET[i] for i in ML for j in MR if st.LET[i] == st.LET[j] and i != j)
             out = self._call(st, th)
             self._finish_oop(st, op, out, exp, clause, f"{''.join(letL)} {f} {''.join(letR)}", operands, loose)
